@@ -21,6 +21,19 @@ class SP(MultiQueueScheduler):
         self.priorities = sorted(priorities.items(), key=lambda item: item[1], reverse=True)
         self.proc = env.process(self.run(env))
 
+    def put(self, packet: Packet):
+        # the priority table is keyed by class, as the tables of WFQ, DRR and
+        # VirtualClock are: packets are queued under their class id
+        class_id = self.flow2class(packet.flow_id)
+        if self.total_packets == 0:
+            self.packets_available.put(True)
+        self.add_packet_to_queue(packet)
+        self.dprint(
+            f"received packet {packet.packet_id} from flow {packet.flow_id} "
+            f"belonging to class {class_id}"
+        )
+        self.stores[class_id].put(packet)
+
     def run(self, env: Environment) -> ProcessGenerator:
         while True:
             for flow_id, prio in self.priorities:
